@@ -28,6 +28,8 @@ MOTIONS = {
     7: dict(rot=((0.6, 0.8, 0), math.pi), perm="shuffle"),
     8: dict(scale=1e-6, shift=(2e-6, -1e-6, 3e-6)),                                # metres instead of micrometres
     9: dict(scale=3.0e4, rot=((0, 1, 0), 0.5)),
+    10: dict(shift=(5000.0, 7000.0, -3000.0)),                                     # atlas coordinates (lattice values stay exact in single precision)
+    11: dict(scale=1.0 / 32, shift=(-20000.0, 30000.0, 25000.0)),                  # a small neuron far from the origin: segments shorter than 1e-5 of the coordinates (exact in single precision)
 }
 
 
@@ -74,7 +76,7 @@ def observe(c, motion, rng, with_volume=False):
     from swcgeom.analysis.lmeasure import LMeasure
     from swcgeom.core import BranchTree
     t, order, s = build(c, motion, rng)
-    o = collect(c, t, order, s, int(motion in (0, 1)), int("perm" in MOTIONS[motion]))
+    o = collect(c, t, order, s, int(motion in (0, 1, 10)), int("perm" in MOTIONS[motion]))
     o["vol_ratio"] = []
     if with_volume:
         from swcgeom.analysis import get_volume
